@@ -167,7 +167,14 @@ def gen(rng, tier):
                 c["values"] = [str(rng.randint(-40, 40)) for _ in range(nrows)]
             if c["name"] == "z":
                 c["values"] = [rng.randint(1, 60) for _ in range(nrows)]
-        cases.append({"formula": f, "frame": fr, "na": "drop", "kind": "swap" if swap else "plain",
+        kind_ = "swap" if swap else "plain"
+        if rng.random() < 0.08:
+            # a level that is a falsy Python value (the empty string) is a level like any other
+            for c in fr["columns"]:
+                if c["name"] in ("f", "g"):
+                    c["values"] = ["" if v in ("a", "p") else v for v in c["values"]]
+            kind_ += "/empty-string-level"
+        cases.append({"formula": f, "frame": fr, "na": "drop", "kind": kind_,
                       "family": [list(t) for t in fam], "icpt": icpt})
     return cases
 
